@@ -57,6 +57,22 @@ def events_for(env, rng, thorough):
         ev.append({"op": "QPickle", "call": name, "eq": bool(q3 == q1), "hash1": hash(q1), "hash2": hash(q3), "desc1": desc(q1), "desc2": desc(q3)})
         o = P.outcome(q1.SetUnknownCaption, "x")
         ev.append({"op": "ReadOnly", "call": name, "cls": o[2] if o[0] == "exc" else "no exception"})
+    # every category of the table: the category-only request resolves to the category's default unit whatever was requested before
+    # (first the base unit of its quantity type with the category named, then the category alone; for every other category the other way round)
+    for k_, c in enumerate(sorted(db.IterCategories())):
+        ci = db.GetCategoryInfo(c)
+        base, du = db.GetBaseUnit(ci.quantity_type), ci.default_unit
+        if P.outcome(db.CheckCategoryUnit, c, base)[0] != "ok":
+            continue
+        first = "base unit first" if (k_ % 3) else "category first"
+        if first == "base unit first":
+            q0 = ObtainQuantity(base, c)
+            q1 = ObtainQuantity(None, c)
+        else:
+            q1 = ObtainQuantity(None, c)
+            q0 = ObtainQuantity(base, c)
+        ev.append({"op": "Resolves", "call": "category only %s (%s)" % (c, first), "unit": q1.GetUnit(), "want_unit": du, "category": q1.GetCategory(), "want_category": c,
+                   "unit0": q0.GetUnit(), "want_unit0": base, "eq": bool(q0 == q1) and hash(q0) == hash(q1) if base == du else bool(q0 != q1), "should_be_same": base == du})
     # composing maps with the same factors in another order (same rendered strings, different maps): unequal quantities
     for (c1, u1), (c2, u2) in (((("length", "m")), ("time", "s")), (("depth", "km"), ("length", "m")), (("mass", "kg"), ("temperature", "K"))):
         for e1, e2 in ((1, -1), (2, -1), (1, 1)):
